@@ -310,7 +310,7 @@ def replay(ctx, path):
     r = tlc.run_many(jobs, parallel=1)[0]
     ctx.add_tlc(r, "replay model")
     expected = [x for x in r.records if "expected" in x][0]["expected"]
-    sch = sched.Scheduler()
+    sch = sched.Scheduler(opcodes=bool(case.get("opcodes")))
     av = fresh(basis)
     order = list(range(1, len(prog) + 1))
     fns = {t + 1: (lambda th=th: [real_call(av, c) for c in th]) for t, th in enumerate(prog)}
